@@ -8,11 +8,11 @@ PROPS = {
     "C16": dict(
         level="model_checking",
         level_text="bounded model checking by symbolic execution: the repository's Rule.MarshalJSON / Rule.UnmarshalJSON / StatefulDefinition.MarshalJSON are executed from SSA together with the real encoding/json (encoder, decoder, scanner, string escaping and unescaping, struct-tag handling) over the executor's reflect model; a lexer built from the unmarshalled rules is compared with the original (symbol table, token stream and error on every input of up to L symbolic bytes), and single rules are round-tripped with symbolic name / pattern / state bytes and every kind of action",
-        level_note="trusted: the executor's reflect model (every sampled path is replayed natively with the real reflect and the real encoding/json), the reference regex matcher on symbolic input, z3; bounds: 14 catalogue + 40 (quick) / 400 (thorough) generated definitions x inputs <= 3 / 4 bytes; rule fields: texts of <= 2 bytes, the first any ASCII byte and the second from 10 class representatives, or one arbitrary two-byte UTF-8 character",
+        level_note="trusted: the executor's reflect model (every sampled path is replayed natively with the real reflect and the real encoding/json), the reference regex matcher on symbolic input, z3; bounds: 17 catalogue + 40 (quick) / 400 (thorough) generated definitions x inputs <= 3 / 4 bytes; rule fields: texts of <= 2 bytes, the first any ASCII byte and the second from 10 class representatives, or one arbitrary two-byte UTF-8 character",
         runs=[dict(pkg="lexer", files=["lexer/zz_verif_json.go", "lexer/zz_verif_stateful.go", "lexer/zz_verif_lexdefs.go", "lexer/zz_verif_lexgen.go", "lexer/zz_verif_conc.go"], harness="^VH_C16_",
                    flags=["-exec-pkgs", "encoding/json,encoding,encoding/base64"], max_steps=20_000_000,
                    reach={"VH_C16_PushPop": ["round-trip"], "VH_C16_IncludeNested": ["round-trip"], "VH_C16_Generated": ["round-trip"], "VH_C16_RuleFields": ["round-trip"]})],
-        bounds=dict(quick="14 catalogue definitions (every action kind, Include first/middle/nested, Return, elided rules with actions, back-references, multi-byte and non-ASCII patterns) + 40 generated definitions, each marshalled both as a definition and as a rule set, x all inputs of <= 3 arbitrary bytes; rule fields: symbolic texts of <= 2 bytes",
+        bounds=dict(quick="17 catalogue definitions (every action kind, Include first/middle/nested/diamond, Return, elided rules with actions, back-references, multi-byte, non-ASCII and astral-plane patterns and names, names that need quoting) + 40 generated definitions, each marshalled both as a definition and as a rule set, x all inputs of <= 3 arbitrary bytes; rule fields: symbolic texts of <= 2 bytes",
                     thorough="400 generated definitions, inputs <= 4 bytes; rule-field texts as quick"),
         outside="definitions outside the catalogue and the generated family; patterns and names longer than the bound; non-ASCII text beyond one two-byte character in the symbolic rule fields (the catalogue has concrete non-ASCII patterns); invalid UTF-8 in names/patterns (encoding/json replaces it by U+FFFD; regexp.Compile rejects such patterns anyway)",
         assumptions=["encoding/json, encoding, encoding/base64 are executed from SSA; reflect is modelled over go/types; sync.Pool/sync.Map/sync.WaitGroup by single-threaded models",
@@ -46,10 +46,10 @@ PROPS = {
     "C03": dict(
         level="model_checking",
         level_text="bounded model checking by symbolic execution: for every catalogue definition and every input of up to L arbitrary bytes, the real lexer.New + StatefulLexer.Next (rule order, include splicing, Return, Push/Pop, back-references, elision, error cases, span/position bookkeeping) is compared on every feasible path with a reference lexer written from the property statement; the solver decides which byte classes are feasible on each path",
-        level_note="trusted: the reference regex matcher that replaces package regexp on symbolic input (validated against the real regexp natively, and every counterexample is replayed against the real regexp before it is reported), the SSA executor (sampled paths replayed natively on every run), z3; bounds: 35 catalogue definitions + 100 (quick) / 400 (thorough) generated definitions, inputs <= 3 (quick) / <= 4 (thorough) bytes",
+        level_note="trusted: the reference regex matcher that replaces package regexp on symbolic input (validated against the real regexp natively, and every counterexample is replayed against the real regexp before it is reported), the SSA executor (sampled paths replayed natively on every run), z3; bounds: 39 catalogue definitions + 100 (quick) / 400 (thorough) generated definitions, inputs <= 3 (quick) / <= 4 (thorough) bytes",
         runs=[dict(pkg="lexer", files=["lexer/zz_verif_stateful.go", "lexer/zz_verif_lexdefs.go", "lexer/zz_verif_lexgen.go"], harness="^VH_C03_",
                    reach={h: ["error", "tokens"] for h in ["VH_C03_Literal", "VH_C03_Overlap", "VH_C03_PushPop", "VH_C03_Return", "VH_C03_IncludeNested", "VH_C03_Backref", "VH_C03_Generated", "VH_C03_ElidedActions"]})],
-        bounds=dict(quick="100 generated definitions (deterministic generator: 3 states, 1-4 rules per state over 31 patterns, Push/Pop/Return/Include, elided rules with and without actions, back-references) and 35 catalogue definitions (literals, overlapping rules, classes, ., multi-byte class, anchors/word boundaries, alternation, empty-matching rule, case folding, Push/Pop, Return, Include first/middle/nested, Pop and Return in Root, optional group in a Push rule, back-references incl. missing group and metacharacter group) x all inputs of <= 3 arbitrary bytes (incl. invalid UTF-8)",
+        bounds=dict(quick="100 generated definitions (deterministic generator: 3 states, 1-4 rules per state over 31 patterns, Push/Pop/Return/Include, elided rules with and without actions, back-references) and 39 catalogue definitions (literals, overlapping rules, classes, ., multi-byte class, anchors/word boundaries, alternation, empty-matching rule, case folding, Push/Pop, Return, Include first/middle/nested, Pop and Return in Root, optional group in a Push rule, back-references incl. missing group and metacharacter group) x all inputs of <= 3 arbitrary bytes (incl. invalid UTF-8)",
                     thorough="400 generated definitions + same catalogue x all inputs of <= 4 arbitrary bytes"),
         outside="definitions outside the catalogue and the generated family; inputs longer than the bound; correctness of package regexp itself; back-reference groups containing bytes >= 0x80",
         assumptions=["package regexp is replaced on symbolic input by the engine's reference matcher (refre.go), leftmost-first semantics over regexp/syntax trees",
@@ -62,7 +62,7 @@ PROPS = {
         level_note="trusted: as C03; the text/scanner-based lexer is outside the claim (stdlib scanner not encoded); generated lexers are covered by the C05 run",
         runs=[dict(pkg="lexer", files=["lexer/zz_verif_stateful.go", "lexer/zz_verif_lexdefs.go", "lexer/zz_verif_lexgen.go"], harness="^VH_C04_",
                    reach={"VH_C04_Advance": ["same-line", "new-line"], "VH_C04_Literal": ["ok", "error"], "VH_C04_Multibyte": ["ok", "error"]})],
-        bounds=dict(quick="Position.Advance: any 64-bit start position x any span of <= 4 arbitrary bytes; 9 catalogue definitions x all inputs of <= 3 arbitrary bytes",
+        bounds=dict(quick="Position.Advance: any 64-bit start position x any span of <= 4 arbitrary bytes; 15 catalogue definitions (incl. dot-all, negated class, multi-line, multi-byte literal rules, elided rules with actions) + 100 generated definitions x all inputs of <= 3 arbitrary bytes",
                     thorough="Position.Advance: spans <= 5 bytes; inputs <= 4 bytes"),
         outside="text/scanner-based lexer (content produced by the stdlib scanner); inputs longer than the bound",
         assumptions=["package regexp replaced by the reference matcher on symbolic input"],
@@ -76,7 +76,7 @@ PROPS = {
                    reach={"VH_C07_Gen_Literal": ["eof", "error"], "VH_C07_Gen_PushPop": ["eof", "error"]}),
               dict(pkg="lexer", files=["lexer/zz_verif_stateful.go", "lexer/zz_verif_lexdefs.go", "lexer/zz_verif_lexgen.go"], harness="^VH_C07_",
                    reach={"VH_C07_Run_Literal": ["eof", "error"], "VH_C07_Run_PushPop": ["eof", "error"], "VH_C07_Step_PushPop": ["token"], "VH_C07_Run_Generated": ["eof", "error"]})],
-        bounds=dict(quick="runtime lexer: 14 catalogue + 100 generated definitions x inputs <= 3 bytes (whole run); generated lexers: 30 catalogue + 24 generated definitions x inputs <= 3 bytes (whole run of the emitted code); 6 definitions x stack depth <= 2 x <= 2 groups of <= 1 byte x remaining input <= 3 bytes (step)",
+        bounds=dict(quick="runtime lexer: 16 catalogue + 100 generated definitions x inputs <= 3 bytes (whole run), plus 13..17 unlexable bytes in front of a symbolic tail; generated lexers: 35 catalogue + 24 generated definitions x inputs <= 3 bytes (whole run of the emitted code); 6 definitions x stack depth <= 2 x <= 2 groups of <= 1 byte x remaining input <= 3 bytes (step)",
                     thorough="inputs <= 4 bytes; 400 generated definitions for the runtime lexer, 120 through the generator"),
         outside="definitions outside the catalogue and the generated family; termination beyond the instruction budget is reported as inconclusive, not assumed",
         assumptions=["package regexp replaced by the reference matcher on symbolic input"],
@@ -85,10 +85,10 @@ PROPS = {
     "C05": dict(
         level="translation_validation",
         level_text="translation validation of the lexer generator's output: the real generator is run on each catalogue definition, the emitted Go source is loaded into the symbolic executor, and for every input of up to L arbitrary bytes the emitted lexer is compared with the runtime lexer (symbol table, token types, values, positions, elision, final EOF, error position, no panic); the only tolerated difference (possessive vs backtracking matching of some rule on that input) is decided per path by the engine's two reference matchers",
-        level_note="trusted: reference matchers (backtracking and possessive) standing in for package regexp on symbolic input, the SSA executor (sampled paths replayed natively through the emitted code), z3; bounds: 30 catalogue + 24 (quick) / 120 (thorough) generated definitions x inputs <= 3 (quick) / <= 4 (thorough) bytes",
+        level_note="trusted: reference matchers (backtracking and possessive) standing in for package regexp on symbolic input, the SSA executor (sampled paths replayed natively through the emitted code), z3; bounds: 35 catalogue + 24 (quick) / 120 (thorough) generated definitions x inputs <= 3 (quick) / <= 4 (thorough) bytes",
         runs=[dict(pkg="lexer/internal/zzverifgen", pkg_name="zzverifgen", files=["gen/zz_verif_gen.go"], harness="^VH_C05_", generate="c05",
                    reach={"VH_C05_Literal": ["tokens", "error"], "VH_C05_Possessive": ["tolerated", "tokens"], "VH_C05_PushPop": ["tokens"], "VH_C05_G0": ["error"]})],
-        bounds=dict(quick="30 catalogue definitions of the generator's supported class (one per regexp operator the generator handles + multi-state Push/Pop/Return/Include + Pop/Return in Root + elided rules with actions + nullable repetition bodies) and 24 generated definitions (deterministic generator restricted to the supported class) x all inputs of <= 3 arbitrary bytes",
+        bounds=dict(quick="35 catalogue definitions of the generator's supported class (one per regexp operator the generator handles + multi-state Push/Pop/Return/Include + Pop/Return in Root + elided rules with actions + nullable repetition bodies) and 24 generated definitions (deterministic generator restricted to the supported class) x all inputs of <= 3 arbitrary bytes",
                     thorough="same catalogue + 120 generated definitions x all inputs of <= 4 arbitrary bytes"),
         outside="definitions outside the catalogue and the generated family; inputs longer than the bound; back-reference / non-greedy / empty-matching rules (documented as unsupported by the generator)",
         assumptions=["package regexp replaced by reference matchers on symbolic input; the tolerated-difference predicate is 'possessive and backtracking reference matchers disagree on the span of some rule the runtime lexer tried on this input'"],
